@@ -10,6 +10,9 @@ mod c08;
 mod c09;
 mod c10;
 mod c11;
+mod c14;
+mod c15;
+mod client_rig;
 mod driver_rig;
 mod evm_stub;
 mod node_rig;
@@ -44,6 +47,9 @@ fn dispatch(id: &str, tier: Option<&str>) {
         "C09" => c09::main(tier),
         "C10" => c10::main(tier),
         "C11" => c11::main(tier),
+        "C14" => c14::main(tier),
+        "C14-small" => c14::main_small(tier),
+        "C15" => c15::main(tier),
         _ => {
             eprintln!("usage: vcheck-node <C01|...> [quick|thorough]");
             std::process::exit(2);
